@@ -180,7 +180,7 @@ package comp
 //@   ensures result2 ==> (exists j :: 0 <= j && j < len(c.lines) && j < c.numberOfLines && covers(c.lines[j], addrs[0]))
 //@   ensures !result2 ==> (forall j :: 0 <= j && j < len(c.lines) && j < c.numberOfLines ==> !covers(c.lines[j], addrs[0]))
 //@   ensures result2 ==> int32(result) == addrs[0] - addrs[0] % lineLength && len(result1) == int(lineLength) && fresh(result1)
-//@   ensures forall j, a :: result2 && firstCover(c, addrs[0], j) && lo(result1) <= a && a < hi(result1) ==> at(result1, a) == at(c.lines[j].Data, lo(c.lines[j].Data) + int(result) - int(c.lines[j].Boundary[0]) + (a - lo(result1)))
+//@   ensures result2 ==> (exists j :: 0 <= j && j < len(c.lines) && j < c.numberOfLines && covers(c.lines[j], addrs[0]) && (forall j2 :: 0 <= j2 && j2 < j ==> !covers(c.lines[j2], addrs[0])) && (forall a :: lo(result1) <= a && a < hi(result1) ==> at(result1, a) == at(c.lines[j].Data, lo(c.lines[j].Data) + int(result) - int(c.lines[j].Boundary[0]) + (a - lo(result1)))))
 //@   ensures !result2 ==> result == 0 && result1 == nil
 //@   assigns nothing
 //@   loop 0: invariant len(_range0) == min(len(c.lines), c.numberOfLines) && (forall j :: 0 <= j && j < len(_range0) ==> _range0[j] == c.lines[j])
